@@ -2072,9 +2072,11 @@ class TransactionRecordIterator(FileStorageFormatter):
             dlen = h.recordlen()
 
             if pos + dlen > self._tend or h.tloc != self._tpos:
+                # Ending the iteration here would hand the caller a
+                # transaction without its remaining records.
                 logger.warning("%s data record exceeds transaction"
                                " record at %s", self._file.name, pos)
-                break
+                raise CorruptedDataError(h.oid, None, pos)
 
             self._pos = pos + dlen
             prev_txn = None
